@@ -132,6 +132,7 @@ struct Case {
   std::string id; int timeout = 20; std::string db;
   std::vector<std::vector<std::string> > sw, fn, pre, ops;
   std::string probe;
+  std::string cwd;           // working directory of the child (every case has its own: files of different cases never mix)
   std::string reload;        // database of the reload (default: db)
   bool reload_as_string = false;
 };
@@ -328,6 +329,7 @@ static void run_case(const Case& c) {
     rl.rlim_cur = rl.rlim_max = (rlim_t)512 << 20; setrlimit(RLIMIT_FSIZE, &rl);
     signal(SIGXFSZ, SIG_IGN);
     signal(SIGUSR1, on_sample);
+    if (!c.cwd.empty()) { int rc_ = chdir(hx::unhex(c.cwd).c_str()); (void)rc_; }
     g_child_fd = pfd[1];
     R = fdopen(pfd[1], "w");
     child_main(c);
@@ -381,6 +383,7 @@ int main() {
     else if (w[0] == "pre") c.pre.push_back(std::vector<std::string>(w.begin() + 1, w.end()));
     else if (w[0] == "op") c.ops.push_back(std::vector<std::string>(w.begin() + 1, w.end()));
     else if (w[0] == "probe") c.probe = w[1];
+    else if (w[0] == "cwd") c.cwd = w[1];
     else if (w[0] == "reload") { c.reload = w[1]; c.reload_as_string = w.size() > 2 && w[2] == "str"; }
     else if (w[0] == "go") { run_case(c); have = false; }
   }
